@@ -1844,6 +1844,15 @@ class _Desugar(ast.NodeTransformer):
             body = [st for st in h.body if not (
                 isinstance(st, ast.Expr) and
                 isinstance(st.value, ast.Constant))]
+            # `if isinstance(e, A): <leaves>` followed by the rest of the
+            # handler: the rest is the else part
+            if len(body) >= 2 and isinstance(body[0], ast.If) and \
+                    not body[0].orelse and body[0].body and \
+                    isinstance(body[0].body[-1], (ast.Raise, ast.Return,
+                                                  ast.Continue, ast.Break)):
+                body = [ast.copy_location(ast.If(
+                    test=body[0].test, body=body[0].body,
+                    orelse=body[1:]), body[0])]
             # statements before the dispatch run whichever class it is:
             # they go to both handlers
             prefix, body = body[:-1], body[-1:]
@@ -1857,6 +1866,26 @@ class _Desugar(ast.NodeTransformer):
                 continue
             t = body[0].test if len(body) == 1 and \
                 isinstance(body[0], ast.If) and body[0].orelse else None
+            if isinstance(h.type, (ast.Name, ast.Attribute)) and h.name and \
+                    isinstance(t, ast.Call) and \
+                    isinstance(t.func, ast.Name) and \
+                    t.func.id == 'isinstance' and len(t.args) == 2 and \
+                    isinstance(t.args[0], ast.Name) and \
+                    t.args[0].id == h.name and \
+                    isinstance(t.args[1], (ast.Name, ast.Attribute)) and \
+                    ast.dump(t.args[1]) != ast.dump(h.type):
+                # except X as e: if isinstance(e, A): S1 else: S2
+                #   ->  except A as e: S1  /  except X as e: S2   (the
+                # handlers before it are tried first either way)
+                first = ast.copy_location(ast.ExceptHandler(
+                    type=t.args[1], name=h.name,
+                    body=copy.deepcopy(prefix) + body[0].body), h)
+                second = ast.copy_location(ast.ExceptHandler(
+                    type=h.type, name=h.name,
+                    body=copy.deepcopy(prefix) + body[0].orelse), h)
+                out += [first, second]
+                self.count += 1
+                continue
             if isinstance(h.type, ast.Tuple) and h.name and \
                     isinstance(t, ast.Call) and \
                     isinstance(t.func, ast.Name) and \
@@ -5376,6 +5405,116 @@ def _replace_stmt(tree, old, new):
     return False
 
 
+def _function_factories(trees, known):
+    """def make(p, q=False):              x = make(a, q=True)
+           def inner(d): ... p ... q  ->  becomes a local function
+           return inner                       def x(d): ... a ... True
+    for a module-level factory the census does not know whose body is one
+    nested def and the return of it, called only as `<local> = make(...)`
+    in its own module.  An argument that is not a plain path is bound to a
+    local first (it is evaluated once, where the factory was called)."""
+    n = 0
+    for path, tree in trees.items():
+        if '/_verif_' in path:
+            continue
+        mod = modname_of(path)
+        for fn in [st for st in tree.body if isinstance(st, ast.FunctionDef)]:
+            if '%s.%s' % (mod, fn.name) in known or fn.decorator_list:
+                continue
+            body = _body_wo_doc(fn)
+            if len(body) != 2 or not isinstance(body[0], ast.FunctionDef) or \
+                    not isinstance(body[1], ast.Return) or \
+                    not isinstance(body[1].value, ast.Name) or \
+                    body[1].value.id != body[0].name or \
+                    body[0].decorator_list:
+                continue
+            inner = body[0]
+            a = fn.args
+            if a.vararg or a.kwarg or a.posonlyargs or a.kwonlyargs:
+                continue
+            params = [x.arg for x in a.args]
+            defaults = dict(zip(reversed(params), reversed(a.defaults)))
+            if any(isinstance(x, ast.Name) and x.id in params and
+                   isinstance(x.ctx, (ast.Store, ast.Del))
+                   for x in ast.walk(inner)) or any(
+                    isinstance(x, (ast.Global, ast.Nonlocal))
+                    for x in ast.walk(inner)):
+                continue
+            # uses: only `<name> = factory(...)` statements of this module
+            ok = True
+            for t2 in trees.values():
+                for x in ast.walk(t2):
+                    if isinstance(x, ast.alias) and fn.name in (x.name,
+                                                                x.asname):
+                        ok = False
+                    if isinstance(x, ast.Attribute) and x.attr == fn.name:
+                        ok = False
+            uses = {id(x) for x in ast.walk(tree) if isinstance(x, ast.Name)
+                    and x.id == fn.name}
+            sites = []
+            for st in ast.walk(tree):
+                if isinstance(st, ast.Assign) and len(st.targets) == 1 and \
+                        isinstance(st.targets[0], ast.Name) and \
+                        isinstance(st.value, ast.Call) and \
+                        isinstance(st.value.func, ast.Name) and \
+                        st.value.func.id == fn.name:
+                    sites.append(st)
+                    uses.discard(id(st.value.func))
+            if not ok or uses or not sites:
+                continue
+            plans = []
+            for st in sites:
+                call = st.value
+                if any(isinstance(x, ast.Starred) for x in call.args) or \
+                        any(k.arg is None for k in call.keywords) or \
+                        len(call.args) > len(params):
+                    plans = None
+                    break
+                env = dict(zip(params, call.args))
+                for k in call.keywords:
+                    if k.arg not in params or k.arg in env:
+                        plans = None
+                        break
+                    env[k.arg] = k.value
+                if plans is None:
+                    break
+                for p_ in params:
+                    if p_ not in env:
+                        if p_ not in defaults:
+                            plans = None
+                            break
+                        env[p_] = defaults[p_]
+                if plans is None:
+                    break
+                plans.append((st, env))
+            if not plans:
+                continue
+            for st, env in plans:
+                name = st.targets[0].id
+                pre = []
+                sub = {}
+                for p_, v in env.items():
+                    if isinstance(v, ast.Constant) or _stable_path(v):
+                        sub[p_] = v
+                    else:
+                        tmp = '%s_%s' % (p_, name)
+                        pre.append(ast.copy_location(ast.Assign(
+                            targets=[ast.Name(id=tmp, ctx=ast.Store())],
+                            value=v, lineno=st.lineno), st))
+                        sub[p_] = ast.Name(id=tmp, ctx=ast.Load())
+                new = copy.deepcopy(inner)
+                new.name = name
+                new.body = [_Subst(sub, {}).visit(b) for b in new.body]
+                new.body = _fold_constant_tests(new.body) or \
+                    [_pass(st)]
+                ast.copy_location(new, st)
+                _replace_stmt(tree, st, pre + [new])
+            tree.body = [x for x in tree.body if x is not fn]
+            ast.fix_missing_locations(tree)
+            n += 1
+    return n
+
+
 def _properties_as_methods(trees, known):
     """A read-only property the census does not know, only ever read as
     `self.<name>`: the same program with a plain method and `self.<name>()`,
@@ -5446,6 +5585,7 @@ def normalise(trees, known=None):
     n += _split_selector_calls(trees, known)
     _properties_as_methods(trees, known)
     n += _with_contextmanagers(trees, known)
+    n += _function_factories(trees, known)
     ilog = Inliner(trees, known).run()
     if ilog:
         # constants whose value was built by a helper that is now written
